@@ -30,8 +30,12 @@ RULES = {
     "`graph.outputs` are resolved by a method that only reads the value map (an unmapped output raises) - a method that "
     "creates a fresh Value for an unmapped one lets extract() return a graph whose output is neither an input, an initializer "
     "nor a node output instead of raising for an uncovered required value",
+    "R7": "no answer survives an edit (shared rule S14): in the extractor, the capture analysis and the traversal they share, no "
+    "function is memoised (functools.cache / lru_cache / cached_property) over a graph, node or value argument - such a cache is "
+    "keyed by object identity and never invalidated, so the captured set of a nested body is frozen at the first extraction and a "
+    "second extraction after an edit selects too much (spurious boundary error) or too little (clone fails)",
 }
-FLOORS = {"R1": 1, "R2": 4, "R3": 3, "R4": 2, "R5": 1, "R6": 1}
+FLOORS = {"R1": 1, "R2": 4, "R3": 3, "R4": 2, "R5": 1, "R6": 1, "R7": 1}
 EXPLANATION = (
     "Return-value provenance of extract(), sibling agreement of the two subgraph-attribute branches, push/pop pairing "
     "and dominance of the boundary validation over the result."
@@ -266,6 +270,10 @@ def rule_r6(ctx):
 
 
 def run(ctx):
+    from ..shared import rule_s14
+
+    rule_s14(ctx, "R7", lambda name: name.startswith(("onnx_ir._convenience", "onnx_ir.analysis", "onnx_ir.traversal")) or name == "onnx_ir._cloner",
+             "the second extraction from an edited graph works with the captured values of the first")
     rule_r6(ctx)
     rule_r4(ctx)
     rule_r5(ctx)
